@@ -250,10 +250,11 @@ def update_sub_system_slack(p_s: PowerSystem):
     possible_sub_systems = list(p_s.sub_systems)
     for sub_system in possible_sub_systems:
         sub_system.slack = None
+        set_slack(p_s, sub_system)
+        # Only the slack bus of the sub system (if any) is flagged as slack
         for bus in sub_system.buses:
-            bus.is_slack = False
-            if set_slack(p_s, sub_system):
-                break
+            if bus != sub_system.slack:
+                bus.is_slack = False
 
 
 def set_slack(p_s: PowerSystem, sub_system: SubSystem):
